@@ -115,7 +115,7 @@ var c10DefList = []c10Def{
 }
 
 type c10Op struct {
-	Kind string `json:"kind"` // cancel | eval | host | plain
+	Kind string `json:"kind"` // cancel | eval | host | plain | latedef | lateuse | latehost
 	Def  int    `json:"def,omitempty"`
 	CK   string `json:"ck,omitempty"` // cancel kind: busy | blocked | expired | callsdef | goroutines
 	K    int64  `json:"k,omitempty"`
@@ -216,9 +216,69 @@ func c10Run(ops []c10Op) []c10OpRes {
 	lastCancel := ""
 	cancels := 0
 	evalSince := false
+	// closures defined in the course of the history (possibly by the evaluation right before a cancelled one)
+	lateN := 0
+	lateCalls := map[int]int{}
+	lateNext := map[int]string{} // kind of the operation which followed the definition
+	prevLateDef := -1
 	for _, op := range ops {
 		r := c10OpRes{Op: op}
+		if prevLateDef >= 0 {
+			lateNext[prevLateDef] = op.Kind
+			if op.Kind == "cancel" {
+				lateNext[prevLateDef] = "cancel-" + op.CK
+			}
+			prevLateDef = -1
+		}
 		switch op.Kind {
+		case "latedef":
+			k := lateN
+			lateN++
+			_, err := i.Eval(fmt.Sprintf("var LateN%d = 0; var Late%d = func() int { LateN%d++; return LateN%d * 3 }", k, k, k, k))
+			r.Got, r.Want = fmt.Sprint(err), "<nil>"
+			r.OK = err == nil
+			r.Cell = "C10/late-closure/define"
+			lateNext[k] = "end"
+			prevLateDef = k
+			evalSince = true
+		case "lateuse", "latehost":
+			if lateN == 0 {
+				continue
+			}
+			k := lateN - 1
+			lateCalls[k]++
+			r.Want = fmt.Sprint(lateCalls[k] * 3)
+			func() {
+				defer func() {
+					if x := recover(); x != nil {
+						r.Got = fmt.Sprintf("HOSTPANIC %v", x)
+					}
+				}()
+				if op.Kind == "lateuse" {
+					v, err := i.Eval(fmt.Sprintf("Late%d()", k))
+					if err != nil {
+						r.Got = "error: " + err.Error()
+					} else {
+						r.Got = fmt.Sprint(v)
+					}
+					return
+				}
+				v, err := i.Eval(fmt.Sprintf("Late%d", k))
+				if err != nil {
+					r.Got = "error: " + err.Error()
+					return
+				}
+				r.Got = fmt.Sprint(v.Interface().(func() int)())
+			}()
+			r.OK = r.Got == r.Want
+			if !r.OK {
+				// resynchronise the model with the observed counter
+				if v, err := i.Eval(fmt.Sprintf("LateN%d", k)); err == nil {
+					lateCalls[k] = int(v.Int())
+				}
+			}
+			r.Cell = fmt.Sprintf("C10/late-closure/%s/defined-before=%s/after=%s/cancels=%d", op.Kind, lateNext[k], lastCancel, minInt(cancels, 2))
+			evalSince = true
 		case "cancel":
 			src := c10CancelSrc[op.CK]
 			mon := newCancelMon(op.K)
@@ -367,7 +427,7 @@ func init() {
 }
 
 func checkC10(r *core.Run) {
-	r.Rule = "history = definitions; function values handed to the host; then a sequence over {cancelled EvalWithContext (busy loop frozen at operation k, goroutines, blocked receive/select, expired context, loop calling the definitions), Eval of a call of a definition, direct host call of a function value obtained before, plain Eval}; every use is compared with a model of the definition (constant or counter). cell = (definition kind, use mode, kind of the last cancelled evaluation, number of cancellations so far (1, 2+)); non-trivial = a use executed after at least one cancellation"
+	r.Rule = "history = definitions; function values handed to the host; then a sequence over {cancelled EvalWithContext (busy loop frozen at operation k, goroutines, blocked receive/select, expired context, loop calling the definitions), Eval of a call of a definition, direct host call of a function value obtained before, plain Eval, definition of a new counter closure (possibly by the evaluation right before a cancelled one) and its use through Eval or through a function value handed to the host afterwards}; every use is compared with a model of the definition (constant or counter). cell = (definition kind, use mode, kind of the last cancelled evaluation, number of cancellations so far (1, 2+)); non-trivial = a use executed after at least one cancellation"
 	r.Assume = []string{"the cancelled call itself is C09's subject and is not judged here", "cancellation is produced deterministically through the verif step hook (freeze at operation k) or by waiting until the evaluation is parked"}
 	var hists [][]c10Op
 	cancelVariants := []c10Op{}
@@ -410,6 +470,16 @@ func checkC10(r *core.Run) {
 			}
 		}
 	}
+	// a closure defined by the evaluation right before the cancelled one (or one evaluation earlier), then used
+	for _, cv := range cancelVariants {
+		for _, use := range []string{"lateuse", "latehost"} {
+			hists = append(hists, []c10Op{{Kind: "latedef"}, cv, {Kind: use}, {Kind: use}})
+			if r.Thorough() || cv.K%2 == int64(r.Seed%2) {
+				hists = append(hists, []c10Op{{Kind: "latedef"}, {Kind: "plain"}, cv, {Kind: use}})
+				hists = append(hists, []c10Op{cv, {Kind: "latedef"}, cv, {Kind: use}, {Kind: "latedef"}, {Kind: use}})
+			}
+		}
+	}
 	// seeded longer histories
 	nRand := 400
 	if r.Thorough() {
@@ -420,7 +490,11 @@ func checkC10(r *core.Run) {
 		var h []c10Op
 		h = append(h, cancelVariants[rg.Intn(len(cancelVariants))])
 		for len(h) < 3+rg.Intn(5) {
-			switch rg.Intn(6) {
+			switch rg.Intn(8) {
+			case 6:
+				h = append(h, c10Op{Kind: "latedef"})
+			case 7:
+				h = append(h, c10Op{Kind: core.Pick(rg, []string{"lateuse", "latehost"})})
 			case 0:
 				h = append(h, cancelVariants[rg.Intn(len(cancelVariants))])
 			case 1:
